@@ -19,6 +19,8 @@ is the one the driver executes (kind `compile`); `Extracted.compile*` is regener
                                     emitted statements = `evalGraph` (event trace and result); nested graphs and in-place nodes
                                     included; no per-graph premise.  `_wf_fused`: lifted through the generator's name groups under
                                     `fuseSafe`.
+* `fuse_text_safe`, `fuse_text_sound` – the same in text order, block by block (`fuseSafe` and `entrySafe` of every block's text:
+                                    the driver's verdict `fuse_safe`), and its consequence for the execution of a block.
 * `fuse_produces_safe`            – the name groups computed by the generator's `fuse` loop (with both filters, as extracted) are
                                     `fuseSafe` on the emitted program, for every `Graph.WF` graph on which `compile` succeeds;
                                     `compile_correct_wf_fused_total` / `compile_correct_extracted`: the fused statement without
@@ -515,6 +517,35 @@ theorem compile_correct_extracted (g : Graph) (comp : Compiled) (hwf : g.WF = tr
       r.ret = (execBlock { env := env' } (comp.st.program.map (Stmt.rename (fun v => comp.grp[v]?.getD v)))).ret :=
   compile_correct_wf_fused_total _ _ g comp hwf extracted_fuse_filters h env'
 
+/-- **fuse_text_safe**: the interference condition in *text order*, block by block — the verdict `fuse_safe` the driver decides per
+graph, as a theorem.  For every `Graph.WF` graph, all usage switches, both filters of the `fuse` loop, and every block `b`: on the text
+of the block (comments and hoisted imports first, then the statements of the block in emission order) the generator's name groups
+satisfy `fuseSafe` (a statement that writes a shared name is not followed by a read of another variable of that name before its
+definition) and `entrySafe` (the variables the block reads from outside — parameters, variables of enclosing blocks, function
+variables — have pairwise distinct names). -/
+theorem fuse_text_safe (cfg : UCfg) (fc : FCfg) (g : Graph) (comp : Compiled) (hwf : g.WF = true)
+    (hfilters : fc.checkLater = true ∧ fc.checkBlock = true) (h : compile cfg fc g = .ok comp) (b : Nat) :
+    fuseSafe (fun v => comp.grp[v]?.getD v) ((comp.st.block b).map (·.stmt)) = true ∧
+    entrySafe (fun v => comp.grp[v]?.getD v) ((comp.st.block b).map (·.stmt)) = true := by
+  obtain ⟨hg, hnd, hblk, hinfo⟩ := compile_fuse_facts cfg fc g comp hwf h
+  rw [hg]
+  exact fuseAll_text_safe fc hfilters.1 hfilters.2 comp.st comp.nblocks hnd (compile_closed cfg fc g comp hwf h) hblk hinfo b
+
+/-- **fuse_text_sound**: consequently (`fuse_sound`, `fuse_entry`) the text of every block, with the names the generator assigned,
+behaves like the text with one name per variable: for every state `x` on entry of the block there is an entry environment for the
+renamed block (the values of the variables that are live on entry, under their shared names) from which it produces the same
+event trace and the same result. -/
+theorem fuse_text_sound (cfg : UCfg) (fc : FCfg) (g : Graph) (comp : Compiled) (hwf : g.WF = true)
+    (hfilters : fc.checkLater = true ∧ fc.checkBlock = true) (h : compile cfg fc g = .ok comp) (b : Nat) (x : XState) :
+    ∃ env' : Env,
+      (execBlock { x with env := env' } (((comp.st.block b).map (·.stmt)).map (Stmt.rename (fun v => comp.grp[v]?.getD v)))).trace
+        = (execBlock x ((comp.st.block b).map (·.stmt))).trace ∧
+      (execBlock { x with env := env' } (((comp.st.block b).map (·.stmt)).map (Stmt.rename (fun v => comp.grp[v]?.getD v)))).ret
+        = (execBlock x ((comp.st.block b).map (·.stmt))).ret := by
+  obtain ⟨hs, he⟩ := fuse_text_safe cfg fc g comp hwf hfilters h b
+  obtain ⟨env', henv⟩ := fuse_entry (fun v => comp.grp[v]?.getD v) ((comp.st.block b).map (·.stmt)) x.env he
+  exact ⟨env', fuse_sound _ _ x { x with env := env' } hs henv rfl rfl⟩
+
 /-! ### Non-vacuity -/
 
 /-- `a = f(a); a = g(a); return a`: three variables share one name, the block is safe, and the theorem applies. -/
@@ -624,5 +655,17 @@ example : liveGraph.WF = true ∧
       some ("import numpy as np\na = np.zeros(3)\nb = np.exp(a)\nc = np.add(a, b)", [0, 1, 2, 3], true) ∧
     fuseSummary ⟨false, true, true⟩ liveGraph =
       some ("import numpy as np\na = np.zeros(3)\na = np.exp(a)\nb = np.add(a, a)", [0, 1, 1, 3], false) := by decide
+
+/-- `fuse_text_safe` on the nested example: the inner block (`a = np.exp(a); a = np.exp(a); return a` with the parameter `a` live on
+entry) and the root block are safe in text order; without the later-use filter the root block of `liveGraph` is not. -/
+def textSummary (fc : FCfg) (g : Graph) : Option (List (Bool × Bool)) :=
+  match compile { fixedUCfg with attrForceInline := true } fc g with
+  | .ok c => some ((List.range c.nblocks).map (fun b =>
+      (fuseSafe (fun v => c.grp[v]?.getD v) ((c.st.block b).map (·.stmt)), entrySafe (fun v => c.grp[v]?.getD v) ((c.st.block b).map (·.stmt)))))
+  | .error _ => none
+
+example : textSummary ⟨true, true, true⟩ nestGraph = some [(true, true), (true, true)] ∧
+    textSummary ⟨true, true, true⟩ liveGraph = some [(true, true)] ∧
+    textSummary ⟨false, true, true⟩ liveGraph = some [(false, true)] := by decide
 
 end Einx.Compile
